@@ -1,5 +1,6 @@
 import MiniVecProof.Props.C04
 import MiniVecProof.Proofs.MemLoop
+import MiniVecProof.Proofs.MemCtor
 import MiniVecProof.Props.C12
 import MiniVecProof.Props.C12CloneFrom
 /-
@@ -422,6 +423,99 @@ theorem C12_clone_any (X : Ctx) (s : St) (es : List Elem) (h : Abs X s.v es) :
 
 
 
+/-- **(C04) `collect` / `FromIterator` under any panic oracle** (`next()` may panic at any call, and so may a destructor
+    while the partial result is unwound): a well-formed vector holding exactly what the iterator produced up to its
+    first `None`, or a sanctioned stop after which the partial result is gone; the caller's vector is untouched in
+    every outcome -/
+theorem C04_collect_any (X : Ctx) (it : Vec.IterScript) (s : St) (hz : 0 < X.c.elemSize) :
+    (∃ o s' new, Vec.collect X it s = (.ok (o, afterNone it), s') ∧ s'.v = s.v ∧ Abs X o new ∧
+        new.map (·.val) = takeSome it) ∨
+    (∃ p s', Vec.collect X it s = (.error p, s') ∧ Panic.benign p = true ∧ s'.v = s.v) := by
+  unfold Vec.collect
+  simp only [VM.bind_run]
+  have hx : (∃ a s', (do
+        VM.lift X (new X.env)
+        Vec.forIter X (Vec.push X) (it.length + 1) it : VM Vec.IterScript) { s with v := {} } = (.ok a, s') ∧
+        (a = afterNone it ∧ ∃ new, Abs X s'.v new ∧ new.map (·.val) = takeSome it)) ∨
+      (∃ p s' acc, (do
+        VM.lift X (new X.env)
+        Vec.forIter X (Vec.push X) (it.length + 1) it : VM Vec.IterScript) { s with v := {} } = (.error p, s') ∧
+        Panic.benign p = true ∧ Abs X s'.v acc) := by
+    have h1 := lift_new_empty X hz s
+    simp only [VM.bind_run, h1]
+    obtain ⟨r, s', new, hrun, habs, _, hr⟩ :=
+      forIter_push_any X it (it.length + 1) { s with v := {} } [] (by omega) (Abs.sentinel_abs X hz)
+    cases r with
+    | ok rest => exact .inl ⟨_, s', hrun, hr.2, new, by simpa using habs, hr.1⟩
+    | error p => exact .inr ⟨p, s', [] ++ new, hrun, hr, habs⟩
+  rcases withLocal_any X _ s (fun a s' => a = afterNone it ∧ ∃ new, Abs X s'.v new ∧ new.map (·.val) = takeSome it) hx with
+    ⟨a, s', hrun, ha, new, habs, hv⟩ | ⟨p, s', hrun, hb, hv⟩
+  · rw [hrun]
+    subst ha
+    exact .inl ⟨s'.v, _, new, rfl, rfl, habs, hv⟩
+  · rw [hrun]
+    exact .inr ⟨p, s', rfl, hb, hv⟩
+
+/-- **(C04) `MiniVec::from(&[T])` under any panic oracle** (`Clone` may panic at any call, a destructor while the partial
+    result is unwound): a well-formed vector of value-equal clones, or a sanctioned stop after which the partial result
+    is gone; the caller's vector is untouched in every outcome -/
+theorem C04_from_slice_any (X : Ctx) (hz : 0 < X.c.elemSize) (elems : List Elem) (s : St) :
+    (∃ o s' new, Vec.from_slice X elems s = (.ok o, s') ∧ s'.v = s.v ∧ Abs X o new ∧
+        new.map (·.val) = elems.map (·.val)) ∨
+    (∃ p s', Vec.from_slice X elems s = (.error p, s') ∧ Panic.benign p = true ∧ s'.v = s.v) := by
+  have hround := round_clone_push X elems.length (fun i => elems.getD i default)
+  have hx : (∃ a s', (do
+        VM.lift X (with_capacity X.env elems.length)
+        VM.forN elems.length (fun i => do
+          let e ← VM.cloneElem X (elems.getD i default)
+          Vec.push X e) : VM Unit) { s with v := {} } = (.ok a, s') ∧
+        ∃ new, Abs X s'.v new ∧ new.map (·.val) = elems.map (·.val)) ∨
+      (∃ p s' acc, (do
+        VM.lift X (with_capacity X.env elems.length)
+        VM.forN elems.length (fun i => do
+          let e ← VM.cloneElem X (elems.getD i default)
+          Vec.push X e) : VM Unit) { s with v := {} } = (.error p, s') ∧ Panic.benign p = true ∧ Abs X s'.v acc) := by
+    have hwc := with_capacity_mem X hz { s with v := {} } rfl elems.length
+    have habs0 : Abs X ({ s with v := {} } : St).v [] := Abs.sentinel_abs X hz
+    simp only [VM.bind_run]
+    generalize VM.lift X (with_capacity X.env elems.length) { s with v := {} } = out at hwc
+    have loop : ∀ s1 : St, Abs X s1.v [] →
+        (∃ a s', VM.forN elems.length (fun i => do
+          let e ← VM.cloneElem X (elems.getD i default)
+          Vec.push X e) s1 = (.ok a, s') ∧ ∃ new, Abs X s'.v new ∧ new.map (·.val) = elems.map (·.val)) ∨
+        (∃ p s' acc, VM.forN elems.length (fun i => do
+          let e ← VM.cloneElem X (elems.getD i default)
+          Vec.push X e) s1 = (.error p, s') ∧ Panic.benign p = true ∧ Abs X s'.v acc) := by
+      intro s1 h1
+      obtain ⟨r, s2, l, hrun, habs2, hvals, _, hr⟩ := forN_go_any X elems.length _ _ hround elems.length 0 s1 [] (by omega) h1
+      cases r with
+      | error p => exact .inr ⟨p, s2, [] ++ l, by simpa [VM.forN] using hrun, hr, habs2⟩
+      | ok u =>
+        simp only at hr
+        refine .inl ⟨(), s2, by simpa [VM.forN] using hrun, l, by simpa using habs2, ?_⟩
+        apply List.ext_getElem?
+        intro j
+        simp only [List.getElem?_map]
+        by_cases hj : j < l.length
+        · have hj2 : j < elems.length := by omega
+          rw [List.getElem?_eq_getElem hj, List.getElem?_eq_getElem hj2]
+          have := hvals j hj
+          simp only [Nat.zero_add, List.getD_eq_getElem?_getD, List.getElem?_eq_getElem hj2, Option.getD_some] at this
+          simp [this]
+        · rw [List.getElem?_eq_none (by omega), List.getElem?_eq_none (by omega)]
+    cases hwc with
+    | same => exact loop _ habs0
+    | stopped p s' hv hp _ => exact .inr ⟨p, s', [], rfl, hp, by rw [hv]; exact habs0⟩
+    | grown s' habs _ _ _ _ => exact loop s' habs
+  unfold Vec.from_slice
+  simp only [VM.bind_run]
+  rcases withLocal_any X _ s (fun _ s' => ∃ new, Abs X s'.v new ∧ new.map (·.val) = elems.map (·.val)) hx with
+    ⟨a, s', hrun, new, habs, hvals⟩ | ⟨p, s', hrun, hb, hv⟩
+  · rw [hrun]
+    exact .inl ⟨s'.v, _, new, rfl, rfl, habs, hvals⟩
+  · rw [hrun]
+    exact .inr ⟨p, s', rfl, hb, hv⟩
+
 /-- **(C12 / C04) `clone_from` when `Clone` or a destructor may panic at any call**: if cloning stops, `self` is exactly
     what it was; otherwise `self` ends up holding the value-equal clones in a well-formed block — also when a destructor
     of one of its previous elements panicked (the new value is in place before the panic continues) — or the process
@@ -461,3 +555,5 @@ end MV.Props
 #print axioms MV.Props.C04_extend_any
 #print axioms MV.Props.C12_clone_any
 #print axioms MV.Props.C12_clone_from_any
+#print axioms MV.Props.C04_collect_any
+#print axioms MV.Props.C04_from_slice_any
